@@ -195,8 +195,8 @@ def _part_A(shard):
     if backend != "cuda":
         k = kern.get_kernel(backend, cross, order)
     ws = kern.omegas(L)
-    if backend == "cuda" and cross and L >= 4:
-        ws = [ws[0], ws[1], ws[4 if len(ws) > 4 else -1], ws[-1]]   # simulator cost: DC, Nyquist, a fractional bin, near-edge
+    if backend in ("cuda", "numpy") and cross and L >= 4:
+        ws = [ws[0], ws[1], ws[4 if len(ws) > 4 else -1], ws[-1]]   # cost (simulator / NumPy call overhead): DC, Nyquist, a fractional bin, near-edge; Numba gets all seven
     for w in ws:
         re, im = est.rows_dft(X, win, w, order)
         re = re.astype(np.float64)
